@@ -233,10 +233,12 @@ def memo_keys(ctx):
     ctx.check(ok, "get_namespace.key", db.where(kv) if kv is not None else db.where(gn), "get_namespace memoises under (%s) a namespace that depends on %s: the same relative uri asked for from templates in different directories yields the namespace resolved for the first of them" % (", ".join(sorted(parts)), sorted(deps)), "key holds the calling namespace and the uri")
     ctx.check(P.has(gn, "if $k in self.context.namespaces:\n    return self.context.namespaces[$k]"), "get_namespace.read", db.where(gn), "the memo is not read under the key it is written under", "read and written under one key")
     au = db.func("lookup.TemplateLookup.adjust_uri")
-    kk = [s for s in walk_func(au) if isinstance(s, ast.Assign) and isinstance(s.value, ast.Tuple) and isinstance(s.targets[0], ast.Name)]
-    okk = bool(kk) and {src(e) for e in kk[0].value.elts} == {pn(au, 1), pn(au, 2)}
+    kk = {s.targets[0].id: s.value for s in walk_func(au) if isinstance(s, ast.Assign) and isinstance(s.value, ast.Tuple) and isinstance(s.targets[0], ast.Name)}
     subs = [n for n in walk_func(au) if isinstance(n, ast.Subscript) and dotted(n.value) == "self._uri_cache"]
-    okk = okk and bool(subs) and all(src(n.slice) == kk[0].targets[0].id for n in subs)
+    def _key_ok(sl):
+        t_ = kk.get(sl.id) if isinstance(sl, ast.Name) else sl
+        return isinstance(t_, ast.Tuple) and {src(e) for e in t_.elts} == {pn(au, 1), pn(au, 2)}
+    okk = bool(subs) and all(_key_ok(n.slice) for n in subs)
     ctx.check(okk, "adjust_uri.key", db.where(au), "adjust_uri memoises under a key that is not (uri, base): the adjusted form of a relative uri is handed to callers in other directories", "key = (uri, relativeto) for every access")
     # generated module: store and reads of its own <%namespace>s
     S = sk.get(db)
